@@ -1516,6 +1516,8 @@ class Ex:
                 self.models.delitem(self, obj, key)
             elif isinstance(t, ast.Name):
                 fr.locals.pop(t.id, None)
+            elif isinstance(t, ast.Attribute):
+                self.delattr(self.eval(t.value, fr), t.attr)
             else:
                 raise Unsupported("del target")
 
@@ -2014,11 +2016,16 @@ class Ex:
                 if isinstance(v, Undefined):
                     raise Unsupported(f"read of {obj.label}.{name}: {v.why}")
                 return v
-            if raw is not None:
+            if owner is not None:       # found on the class (its value may well be None)
                 return self._bind_class_attr(obj, owner, raw, name)
             m = self.models.getattr_model(self, obj, name)
             if m is not NotImplemented:
                 return m
+            if self.call_serial is None or getattr(obj, "_serial", 1 << 60) <= self.call_serial:
+                # an object the *contract* built as part of the pre-state: a field the code reads and the contract did not
+                # provide is a contract that no longer describes the class (a new cached field, a renamed attribute), not an
+                # AttributeError of the code
+                raise Unsupported(f"the contract's {obj.cls.__name__} object has no field {name!r}: the class under check keeps state the contract does not describe")
             self.raise_(AttributeError, f"{obj.cls.__name__} object has no attribute {name!r}")
         if isinstance(obj, NTVal):
             if name in obj.nty.fields:
@@ -2104,11 +2111,64 @@ class Ex:
             return Bound(obj, None, name)       # stdlib python function -> model by name
         if callable(raw) or type(raw).__name__ in ("method_descriptor", "wrapper_descriptor", "builtin_function_or_method"):
             return Bound(obj, None, name)
+        clo = self._descriptor_method(raw, "__get__")
+        if clo is not None:
+            return self.call_closure(clo, [raw, obj, type_of(obj)], {})
         return raw
+
+    def _descriptor_method(self, raw, dunder):
+        """the descriptor protocol for a class attribute whose type is a class of the tree under check and defines `dunder`
+        (a hand-written descriptor instead of `property`): its method as a closure; None when the attribute is plain data;
+        unsupported when the descriptor type is not repository code"""
+        t = type(raw)
+        if t in (int, str, float, bool, tuple, list, dict, set, frozenset, type(None), bytes) or isinstance(raw, (type, enum.Enum)):
+            return None
+        f = None
+        for k in t.__mro__:
+            if dunder in k.__dict__:
+                f = k.__dict__[dunder]
+                break
+        if f is None or not isinstance(f, types.FunctionType):
+            if f is not None and getattr(t, "__module__", "").split(".")[0] == "simfile":
+                raise Unsupported(f"descriptor {t.__name__}.{dunder} is not a plain function")
+            return None
+        clo = self.wrap_real(f, t)
+        if clo is None:
+            raise Unsupported(f"descriptor type {t.__module__}.{t.__name__} is not repository code")
+        return clo
+
+    def delattr(self, obj, name):
+        if isinstance(obj, HObj):
+            owner, raw = self.class_attr(obj.cls, name)
+            if isinstance(raw, property):
+                if raw.fdel is None:
+                    self.raise_(AttributeError, f"can't delete attribute {name}")
+                clo = self.wrap_real(raw.fdel, owner)
+                if clo is None:
+                    raise Unsupported(f"property deleter {name} is not repo code")
+                self.call_closure(clo, [obj], {})
+                return
+            if raw is not None:
+                clo = self._descriptor_method(raw, "__delete__")
+                if clo is not None:
+                    self.call_closure(clo, [raw, obj], {})
+                    return
+            if name in obj.fields:
+                if self.nofork:
+                    raise _WouldFork()
+                del obj.fields[name]
+                return
+            self.raise_(AttributeError, name)
+        raise Unsupported(f"delattr on {obj!r}.{name}")
 
     def setattr(self, obj, name, v):
         if isinstance(obj, HObj):
             owner, raw = self.class_attr(obj.cls, name)
+            if raw is not None and not isinstance(raw, property):
+                clo = self._descriptor_method(raw, "__set__")
+                if clo is not None:
+                    self.call_closure(clo, [raw, obj, v], {})
+                    return
             if isinstance(raw, property):
                 if raw.fset is None:
                     self.raise_(AttributeError, f"can't set attribute {name}")
